@@ -289,7 +289,9 @@ func TestAutoSnapshot(t *testing.T) {
 		t.Skip()
 	}
 	defer common.Verdict(t, rec, "auto")
-	attempt := func(threshold uint64, interval time.Duration, extra int) (bool, string) {
+	// chunks > 1: the writes arrive in that many groups separated by pauses of one and a half intervals, so
+	// that the threshold is reached by writes accumulated over several ticks of the snapshot timer
+	attempt := func(threshold uint64, interval time.Duration, extra int, chunks int) (bool, string) {
 		root := sut.NewScratchDir("c03auto")
 		defer os.RemoveAll(root)
 		s, err := sut.New(sut.Opts{DataDir: root, SnapshotThreshold: threshold, SnapshotInterval: interval, RealClock: true})
@@ -299,6 +301,15 @@ func TestAutoSnapshot(t *testing.T) {
 		defer s.Close()
 		n := int(threshold) + extra
 		for i := 0; i < n; i++ {
+			if chunks > 1 && i > 0 && i%((n+chunks-1)/chunks) == 0 {
+				time.Sleep(interval + interval/2)
+				if lastSave(s) != 0 {
+					// a snapshot before the threshold is not forbidden by the property; the counter has been reset,
+					// so this attempt says nothing about accumulation
+					rec.Class("auto-snapshot before the threshold (not asserted)")
+					return true, ""
+				}
+			}
 			s.Do("SET", "k"+strconv.Itoa(i), "v")
 		}
 		deadline := time.Now().Add(20 * interval)
@@ -313,24 +324,29 @@ func TestAutoSnapshot(t *testing.T) {
 			}
 			time.Sleep(interval / 5)
 		}
-		return false, fmt.Sprintf("no automatic snapshot within 20 intervals after %d writes (threshold %d, interval %s)", n, threshold, interval)
+		return false, fmt.Sprintf("no automatic snapshot within 20 intervals after %d writes in %d group(s) (threshold %d, interval %s)", n, chunks, threshold, interval)
 	}
 	for _, th := range []uint64{1, 3, 10} {
 		for _, iv := range []time.Duration{50 * time.Millisecond, 200 * time.Millisecond} {
 			for _, extra := range []int{0, 2} {
-				ok, msg := attempt(th, iv, extra)
-				if !ok {
-					// repeat on two fresh servers: a logic defect reproduces, a scheduling hiccup does not
-					ok2, _ := attempt(th, iv, extra)
-					ok3, _ := attempt(th, iv, extra)
-					if !ok2 && !ok3 {
-						b, _ := json.MarshalIndent(map[string]any{"property": "C03", "leg": "auto", "threshold": th, "interval_ms": iv.Milliseconds(), "writes": int(th) + extra, "failure": msg}, "", " ")
-						p := engine.WriteRaw("C03", "auto", b)
-						t.Fatalf("violation (replay %s): %s (reproduced on three fresh servers)", p, msg)
+				for _, chunks := range []int{1, 2, 3} {
+					if chunks > 1 && (int(th) < chunks || extra != 0) {
+						continue
 					}
-					rec.Class("auto-snapshot-inconclusive")
+					ok, msg := attempt(th, iv, extra, chunks)
+					if !ok {
+						// repeat on two fresh servers: a logic defect reproduces, a scheduling hiccup does not
+						ok2, _ := attempt(th, iv, extra, chunks)
+						ok3, _ := attempt(th, iv, extra, chunks)
+						if !ok2 && !ok3 {
+							b, _ := json.MarshalIndent(map[string]any{"property": "C03", "leg": "auto", "threshold": th, "interval_ms": iv.Milliseconds(), "writes": int(th) + extra, "groups": chunks, "failure": msg}, "", " ")
+							p := engine.WriteRaw("C03", "auto", b)
+							t.Fatalf("violation (replay %s): %s (reproduced on three fresh servers)", p, msg)
+						}
+						rec.Class("auto-snapshot-inconclusive")
+					}
+					rec.Case(fmt.Sprintf("auto|%d|%s|%d|%d", th, iv, extra, chunks), true, fmt.Sprintf("threshold %d, interval %s, %d writes in %d group(s) -> automatic snapshot observed", th, iv, int(th)+extra, chunks))
 				}
-				rec.Case(fmt.Sprintf("auto|%d|%s|%d", th, iv, extra), true, fmt.Sprintf("threshold %d, interval %s, %d writes -> automatic snapshot observed", th, iv, int(th)+extra))
 			}
 		}
 	}
